@@ -49,7 +49,34 @@ var corpus = [][]Call{
 	h(uc("script", "S_async"), fc("script", "S_async", "throw", 1)), // async start keeps sp
 }
 
+func gs(items ...gItem) GCall { return GCall{Items: items} }
+
+// gcorpus: histories of top-level declaration scripts (part G); the failing script must leave nothing behind.
+var gcorpus = [][]GCall{
+	// `let a` ; then `let b; var a` is rejected (var/let conflict): b must not exist afterwards (seeded defect C03-r2)
+	{gs(gItem{"let", 0}), gs(gItem{"let", 1}, gItem{"var", 0}), gs(gItem{"let", 1})},
+	// ... `function b(){}; var a` rejected: the function must not exist
+	{gs(gItem{"const", 0}), gs(gItem{"function", 1}, gItem{"var", 0})},
+	// ... `class b {}; var a`
+	{gs(gItem{"class", 0}), gs(gItem{"class", 1}, gItem{"var", 0})},
+	// non-extensible global object: `let a; var b` is rejected with a TypeError, a must not exist
+	{gs(gItem{"pe", 0}), gs(gItem{"let", 0}, gItem{"var", 1}), gs(gItem{"gset", 0})},
+	{gs(gItem{"pe", 0}), gs(gItem{"let", 0}, gItem{"function", 1})},
+	// function/let and let/let, let/var conflicts
+	{gs(gItem{"let", 0}), gs(gItem{"let", 1}, gItem{"function", 0})},
+	{gs(gItem{"let", 0}), gs(gItem{"var", 1}, gItem{"let", 0})},
+	{gs(gItem{"var", 0}), gs(gItem{"function", 1}, gItem{"let", 0})},
+	// body aborted: the bindings exist, the later ones stay uninitialised
+	{{Items: []gItem{{"let", 0}, {"const", 1}}, Fault: &Fault{"throw", 2}}, gs(gItem{"var", 1})},
+	{{Items: []gItem{{"class", 0}, {"function", 1}}, Fault: &Fault{"limit", 0}}, gs(gItem{"let", 0})},
+}
+
 func regression(r *core.Run) bool {
+	for _, hist := range gcorpus {
+		for _, f := range gJudgeHistory(hist, r) {
+			r.Violation(f.sig, f.what, Case{Part: "globals", Scripts: hist, Detail: f.what})
+		}
+	}
 	for _, hist := range corpus {
 		if expired(r) {
 			return false
@@ -64,6 +91,6 @@ func regression(r *core.Run) bool {
 			r.Violation(f.sig, f.what, Case{Part: "regression", History: hist, Detail: f.what})
 		}
 	}
-	r.Set("regression_corpus", len(corpus))
+	r.Set("regression_corpus", len(corpus)+len(gcorpus))
 	return true
 }
